@@ -83,18 +83,28 @@ Proof.
   apply nexts_tokens. apply flatten_no_unknown_items. exact U.
 Qed.
 
-(* per-thread monotonicity (finite schedules with well-behaved leaves): the times a thread
-   is given never decrease *)
+Lemma clock_mono_lower m m' nows : m' <= m -> clock_mono m nows -> clock_mono m' nows.
+Proof. destruct nows as [|n r]; cbn; [auto|]. intros L [A B]. split; [lia|exact B]. Qed.
+
+Lemma clock_ok_next_nows : forall evs lo, clock_ok lo evs -> clock_mono lo (next_nows evs).
+Proof.
+  induction evs as [|[now o] r IH]; intros lo C; [exact I|]. destruct C as [L C].
+  rewrite nn_cons. destruct o; try (eapply clock_mono_lower; [exact L|apply IH; exact C]).
+  cbn [clock_mono]. split; [exact L|apply IH; exact C].
+Qed.
+
+(* per-thread monotonicity (well-behaved leaves, unlimited parts included): the times a thread is
+   given never decrease, whatever the interleaving and the (non-decreasing) clock *)
 Theorem conc_thread_mono fuel c0 lo0 ths st :
-  conc_conclusion fuel c0 lo0 ths st -> existsb unknown_part (flatten c0) = false ->
+  conc_conclusion fuel c0 lo0 ths st ->
   Forall leaf_ok (flatten c0) -> Forall unstarted (flatten c0) ->
   exists p, forall i th, nth_error (g_threads (i_g st)) i = Some th ->
     nondecr p (next_results (t_hist th)).
 Proof.
-  intros (_ & _ & _ & _ & H & p & E) U Lk Un. exists p. intros i th Hi.
+  intros (_ & _ & C & _ & H & p & E) Lk Un. exists p. intros i th Hi.
   destruct (H i th Hi) as [-> _].
   eapply nondecr_subseq; [apply proj_next_subseq|]. rewrite E.
-  apply nexts_nondecr_nowin; [apply flatten_no_unknown_items; exact U|apply items_ordered; assumption].
+  apply (nexts_nondecr _ _ _ p lo0); [apply items_ordered; assumption|apply clock_ok_next_nows; exact C].
 Qed.
 
 (* after exhaustion every call of every thread returns the same finish time *)
